@@ -269,12 +269,32 @@ json handleOne(Ctx &c, const json &rec) {
                     check("dataSlice", [&] { return nix::util::dataSlice(a, st, en, us, rm(mode)); }, false, rm(mode));
                     continue;
                 }
-                nix::Tag tag = b.createTag("tag", "t", pos);
-                if (!absent) tag.extent(exts);
-                if (!g_dimUnit.empty() && L > 0) { std::vector<std::string> us; for (size_t j = 0; j < L; j++) us.push_back(j < R ? unitFor(axes[j], g_tagUnit) : "none"); tag.units(us); }
+                // every other reference case: the tag is created with ANOTHER position / extent, its handle is used for one retrieval and
+                // kept, then the tag gets its definition through a second handle; the checks go through the kept handle
+                bool keptTag = (t == "tag") && (RF.used % 2 == 1) && L > 0;
+                nix::Tag tag;
+                std::vector<std::string> tagUnits;
+                if (!g_dimUnit.empty() && L > 0) for (size_t j = 0; j < L; j++) tagUnits.push_back(j < R ? unitFor(axes[j], g_tagUnit) : "none");
+                if (keptTag) {
+                    std::vector<double> other(pos), oe(L, 0.25);
+                    for (auto &q : other) q += 1000.0;
+                    tag = b.createTag("tag", "t", other);
+                    tag.extent(oe);
+                    tag.addReference(a);
+                    try { (void) nix::util::taggedData(tag, a, rm(mode)); } catch (...) {}
+                    try { (void) tag.position(); (void) tag.extent(); (void) tag.units(); (void) tag.taggedData((size_t) 0); } catch (...) {}
+                    nix::Tag t2 = b.getTag("tag");
+                    t2.position(pos);
+                    if (absent) t2.extent(nix::none); else t2.extent(exts);
+                    if (!tagUnits.empty()) t2.units(tagUnits);
+                } else {
+                    tag = b.createTag("tag", "t", pos);
+                    if (!absent) tag.extent(exts);
+                    if (!tagUnits.empty()) tag.units(tagUnits);
+                }
                 nix::RangeMatch effective = (absent || L == 0) ? nix::RangeMatch::Inclusive : rm(mode);   // no extent vector: the library matches inclusively
                 if (t == "tag") {
-                    tag.addReference(a);
+                    if (!keptTag) tag.addReference(a);
                     check("util::taggedData(tag,array)", [&] { return nix::util::taggedData(tag, a, rm(mode)); }, true, effective);
                     check("util::taggedData(tag,0)", [&] { return nix::util::taggedData(tag, (nix::ndsize_t) 0, rm(mode)); }, true, effective);
                     if (mode == "Exclusive") {
@@ -334,14 +354,26 @@ json handleOne(Ctx &c, const json &rec) {
             }
             if (!feasible) { RF.f.deleteBlock(b); continue; }
             nix::NDSize psh = (R == 1 && L == 1) ? nix::NDSize({(nix::ndsize_t) N}) : nix::NDSize({(nix::ndsize_t) N, (nix::ndsize_t) L});
+            // every other reference case: positions / extents first hold OTHER values, the multi-tag handle is used for one retrieval
+            // and kept, then the arrays get their real content through fresh handles; the checks go through the kept multi-tag handle
+            bool keptMt = (t == "mtag") && (RF.used % 2 == 1);
             nix::DataArray pa = b.createDataArray("positions", "t", nix::DataType::Double, psh);
-            pa.setData(nix::DataType::Double, P.data(), psh, nix::NDSize(psh.size(), 0));
+            std::vector<double> P0(P), E0(E);
+            if (keptMt) { for (auto &q : P0) q += 1000.0; for (auto &q : E0) q = 0.25; }
+            pa.setData(nix::DataType::Double, P0.data(), psh, nix::NDSize(psh.size(), 0));
             nix::MultiTag mt = b.createMultiTag("mtag", "t", pa);
             if (!g_dimUnit.empty()) { std::vector<std::string> us; for (size_t j = 0; j < L && j < R; j++) us.push_back(unitFor(axes[j], g_tagUnit)); mt.units(us); }
             if (!absent) {
                 nix::DataArray ea = b.createDataArray("extents", "t", nix::DataType::Double, psh);
-                ea.setData(nix::DataType::Double, E.data(), psh, nix::NDSize(psh.size(), 0));
+                ea.setData(nix::DataType::Double, E0.data(), psh, nix::NDSize(psh.size(), 0));
                 mt.extents(ea);
+            }
+            if (keptMt) {
+                mt.addReference(a);
+                try { (void) nix::util::taggedData(mt, (nix::ndsize_t) 0, a, rm(mode)); } catch (...) {}
+                try { (void) mt.positions(); (void) mt.extents(); (void) mt.units(); (void) mt.taggedData((size_t) 0, (size_t) 0); } catch (...) {}
+                b.getDataArray("positions").setData(nix::DataType::Double, P.data(), psh, nix::NDSize(psh.size(), 0));
+                if (!absent) b.getDataArray("extents").setData(nix::DataType::Double, E.data(), psh, nix::NDSize(psh.size(), 0));
             }
             std::vector<nix::ndsize_t> idx;
             for (auto &x : cs["idx"]) idx.push_back((nix::ndsize_t) x.get<long>());
@@ -356,7 +388,7 @@ json handleOne(Ctx &c, const json &rec) {
                 return explainedByMaxExtent(a, axes, d, L, res["regs"][qi], true, gthrew, oo, oc, effective);
             };
             if (t == "mtag") {
-                mt.addReference(a);
+                if (!keptMt) mt.addReference(a);
                 json exp;
                 if (res["ok"]) { exp = json{{"ok", true}, {"views", json::array()}}; for (auto &rg : res["regs"]) exp["views"].push_back({{"elements", expectedElements(rg, d)}, {"shape", shapeOf(rg)}}); }
                 else exp = json{{"ok", false}};
